@@ -170,3 +170,16 @@ _ws = re.compile(r"\s+")
 def short(s: str, n: int = 120) -> str:
     s = _ws.sub(" ", s)
     return s if len(s) <= n else s[: n - 3] + "..."
+
+
+def run_rules(mod, run):
+    """mod.check(run); an anchor that vanishes AFTER an obligation already failed does not turn the run into an analysis error:
+    the failure stands and is reported (the construct that broke the obligation is usually what removed the anchor). With no
+    failure recorded the AnalysisError propagates and the run is analysis-broken (exit 2)."""
+    from .model import AnalysisError
+    try:
+        mod.check(run)
+    except AnalysisError as e:
+        if not run.failures():
+            raise
+        run.note("analysis_stopped_after_violation", str(e))
